@@ -2,6 +2,7 @@ package plugins
 
 import (
 	"fmt"
+	"time"
 
 	"github.com/cube2222/octosql/functions"
 	"github.com/cube2222/octosql/octosql"
@@ -39,13 +40,62 @@ func verifCallOf(name string, d physical.FunctionDescriptor, tag string) (physic
 	}, types
 }
 
+// verifCanonValue: one fixed non-trivial value of type t (SYM=0: cheap arguments that still tell
+// overloads apart, since an implementation applied to values of other types reads zero fields).
+func verifCanonValue(t octosql.Type) octosql.Value {
+	switch t.TypeID {
+	case octosql.TypeIDNull:
+		return octosql.NewNull()
+	case octosql.TypeIDInt, octosql.TypeIDAny:
+		return octosql.NewInt(3)
+	case octosql.TypeIDFloat:
+		return octosql.NewFloat(2.5)
+	case octosql.TypeIDBoolean:
+		return octosql.NewBoolean(true)
+	case octosql.TypeIDString:
+		return octosql.NewString("ab")
+	case octosql.TypeIDTime:
+		return octosql.NewTime(time.Unix(1600000000, 5).UTC())
+	case octosql.TypeIDDuration:
+		return octosql.NewDuration(1500 * time.Millisecond)
+	case octosql.TypeIDList:
+		if t.List.Element == nil {
+			return octosql.NewList([]octosql.Value{})
+		}
+		return octosql.NewList([]octosql.Value{verifCanonValue(*t.List.Element), verifCanonValue(*t.List.Element)})
+	case octosql.TypeIDStruct:
+		out := make([]octosql.Value, len(t.Struct.Fields))
+		for i := range out {
+			out[i] = verifCanonValue(t.Struct.Fields[i].Type)
+		}
+		return octosql.NewStruct(out)
+	case octosql.TypeIDTuple:
+		out := make([]octosql.Value, len(t.Tuple.Elements))
+		for i := range out {
+			out[i] = verifCanonValue(t.Tuple.Elements[i])
+		}
+		return octosql.NewTuple(out)
+	case octosql.TypeIDUnion:
+		for _, alt := range t.Union.Alternatives {
+			if alt.TypeID != octosql.TypeIDNull {
+				return verifCanonValue(alt)
+			}
+		}
+	}
+	return octosql.NewNull()
+}
+
 // verifSameBehaviour: the repopulated function returns what the original returns on arbitrary
 // arguments of the given types.
 func verifSameBehaviour(name string, ov int, d physical.FunctionDescriptor, got physical.FunctionDescriptor, types []octosql.Type, tag string) {
 	zzverif.Assert(got.Function != nil, "function-repopulated")
 	values := make([]octosql.Value, len(types))
 	for i := range types {
-		values[i] = vx.ValueOfType(fmt.Sprintf("%s.v%d", tag, i), types[i], zzverif.Param("E"), zzverif.Param("S"))
+		if zzverif.Param("SYM") == 1 {
+			values[i] = vx.ValueOfType(fmt.Sprintf("%s.v%d", tag, i), types[i], zzverif.Param("E"), zzverif.Param("S"))
+		} else {
+			values[i] = verifCanonValue(types[i])
+		}
 		if d.Strict {
 			zzverif.Assume(values[i].TypeID != octosql.TypeIDNull)
 		}
@@ -71,7 +121,8 @@ func verifSameBehaviour(name string, ov int, d physical.FunctionDescriptor, got 
 // uses +(Int,Int) and +(Float,Float)): SHAPE=0: the two calls are the arguments of an OR;
 // SHAPE=1: the second call is nested as the first argument position of a surrounding AND next to
 // the first. After the simulated JSON transport and RepopulatePhysicalExpressionFunctions BOTH
-// calls must behave as their own original overload. (Resolution must be per call, not per name.)
+// calls must behave as their own original overload (resolution must be per call, not per name).
+// SYM=1: arbitrary arguments of the declared types; SYM=0: one fixed non-trivial value per type.
 func VerifC26RepopulatePair() {
 	fi := zzverif.Param("FN")
 	if fi < 0 {
